@@ -60,7 +60,10 @@ class C01(Property):
                   "polynomial residual system: a solution of the linearised system is the exact "
                   "first-order change of the converged state (dual numbers), forward and reverse seeds "
                   "give the same entry (adjoint identity), the solution is unique given a left inverse, "
-                  "and unit/driver scaling of an entry is the affine chain rule. The Lean driver executes "
+                  "unit/driver scaling of an entry is the affine chain rule, a fixed point of the block "
+                  "Gauss-Seidel visit solves the linear system (LinearBlockGS) and one pass in an order "
+                  "that makes the matrix triangular is an exact solve (LinearRunOnce, fwd on A and rev on "
+                  "A^T). The Lean driver executes "
                   "these definitions in exact rationals on every generated model and the real "
                   "compute_totals must match it under the configuration cross product.")
     level_note = ("partial: theorems are about the flat ModelSpec; OpenMDAO's setup, vector layout, "
